@@ -78,3 +78,23 @@ Definition prim_fops (tb : tabs) : fops float := {|
   f_mod := fun a b => of_bits (match look2 (t_mod tb) (to_bits a) (to_bits b) with Some v => v | None => missing_f end);
   f_to_int := fun a => match look1 (t_f2i tb) (to_bits a) with Some v => v | None => missing_z end
 |}.
+
+(* The same interface over the stdlib's SPECIFICATION of binary64
+   (SpecFloat, plain Gallina, no primitive): used for the closed witnesses in
+   Props/C02.v so that they mention no primitive operation. *)
+Definition sprec : Z := 53.
+Definition semax : Z := 1024.
+Definition spec_of_bits (b : N) : SpecFloat.spec_float := bits_to_SF (Z.of_N b).
+Definition spec_to_bits (f : SpecFloat.spec_float) : N := Z.to_N (SF_to_bits f).
+
+Definition spec_fops (tb : tabs) : fops SpecFloat.spec_float := {|
+  f_add := SpecFloat.SFadd sprec semax;
+  f_sub := SpecFloat.SFsub sprec semax;
+  f_mul := SpecFloat.SFmul sprec semax;
+  f_div := SpecFloat.SFdiv sprec semax;
+  f_of_int := fun z => SpecFloat.binary_normalize sprec semax z 0 false;
+  f_is_zero := fun x => SpecFloat.SFeqb x (SpecFloat.S754_zero false);
+  f_pow := fun a b => spec_of_bits (match look2 (t_pow tb) (spec_to_bits a) (spec_to_bits b) with Some v => v | None => missing_f end);
+  f_mod := fun a b => spec_of_bits (match look2 (t_mod tb) (spec_to_bits a) (spec_to_bits b) with Some v => v | None => missing_f end);
+  f_to_int := fun a => match look1 (t_f2i tb) (spec_to_bits a) with Some v => v | None => missing_z end
+|}.
